@@ -35,6 +35,7 @@ type c20Probe struct {
 	Kind       string      `json:"kind"`
 	Type       string      `json:"type"`
 	Opts       [][2]string `json:"opts"`
+	Missing    []string    `json:"missing"`
 	Config     any         `json:"config"`
 	Controlled bool        `json:"controlled"`
 	What       string      `json:"what"`
@@ -165,7 +166,7 @@ func TestVerifC20Schema(t *testing.T) {
 
 		w.Put(vf.Obs{
 			I: i, Stream: "probe", In: p, Out: o,
-			Coq: vf.CoqApp("sc", vf.CoqStr(p.Kind), vf.CoqStr(p.Type), vf.CoqBool(p.Config != nil), opts, vf.CoqBool(p.Controlled),
+			Coq: vf.CoqApp("sc", vf.CoqStr(p.Kind), vf.CoqStr(p.Type), vf.CoqBool(p.Config != nil), opts, vf.CoqStrs(p.Missing), vf.CoqBool(p.Controlled),
 				vf.CoqBool(o.SchemaOK), vf.CoqBool(o.LoaderOK)),
 			Nontrivial: len(p.Opts) > 0 || p.What == "control",
 			Tags:       tags,
